@@ -5,6 +5,7 @@ import (
 	"errors"
 	"fmt"
 	"io"
+	"math"
 	"net/url"
 	"os"
 	"reflect"
@@ -30,6 +31,8 @@ type scripted struct {
 	starts    []time.Time
 	ends      []time.Time
 	runaway   bool
+	overrun   bool // an attempt was made after the successful one, or attemptsCap was reached
+	extra     int  // attempts after the successful one
 	same      int // consecutive attempts started at the same (virtual) instant
 	errKind   int // which error value failed attempts return (varied per attempt)
 	firstDur  time.Duration
@@ -84,6 +87,11 @@ func failure(kind int, u string) error {
 
 const runawayAttempts = 20000
 
+// attemptsCap is far above what any case of the checks lets a correct getter make (the grid's ten minutes of 1 ms waits: 600000).
+const attemptsCap = 5000000
+
+const overrunSentinel = "verif: the retrying getter went on after the success / beyond every bound"
+
 func (s *scripted) durOf(attempt int) time.Duration {
 	if attempt == 1 && s.firstDur > 0 {
 		return s.firstDur
@@ -103,6 +111,21 @@ func (s *scripted) Get(url string) (map[string][]string, []byte, error) {
 		s.runaway = true
 		time.Sleep(24 * time.Hour)
 		return nil, nil, errors.New("scripted failure (runaway)")
+	}
+	if s.successAt > 0 && len(s.starts) >= s.successAt {
+		// an attempt after the successful one (from the call itself or from something it left running): noted, and
+		// answered with the success again so that whatever loop asks comes to an end
+		s.overrun = true
+		s.extra++
+		if s.extra < 1000 {
+			return s.header, s.body, nil
+		}
+	}
+	if len(s.starts) >= attemptsCap || s.extra >= 1000 {
+		// more attempts than any setting of the checks allows: with a timeout as large as the type allows such a call
+		// would go on for ever - unwind it (safeGet reports what happened)
+		s.overrun = true
+		panic(overrunSentinel)
 	}
 	s.starts = append(s.starts, now)
 	if d := s.durOf(len(s.starts)); d > 0 {
@@ -177,6 +200,12 @@ func newScripted(c c20Case, s *gen.Stream) (*scripted, []byte) {
 // judge applies the oracle to one finished call. It returns (key, detail) on violation.
 func judge(c c20Case, sg *scripted, wantBody []byte, h map[string][]string, b []byte, err error, elapsed time.Duration) (string, string) {
 	attempts := len(sg.starts)
+	if sg.overrun {
+		if sg.successAt > 0 {
+			return "attempt-after-success", fmt.Sprintf("%s: attempt %d succeeded and a further attempt was made", c, sg.successAt)
+		}
+		return "no-give-up", fmt.Sprintf("%s: %d attempts and no end", c, attempts)
+	}
 	if sg.runaway {
 		return "busy-loop", fmt.Sprintf("%s: %d attempts in a row without the clock advancing", c, runawayAttempts)
 	}
@@ -208,17 +237,17 @@ func judge(c c20Case, sg *scripted, wantBody []byte, h map[string][]string, b []
 		return "success-discarded", fmt.Sprintf("%s: attempt %d succeeded but an error was returned: %v", c, c.SuccessAt, err)
 	}
 	// (3) bounded give-up
-	bound := c.Timeout + c.MaxDelay + 2*c.Dur + time.Millisecond
+	bound := satAdd(satAdd(c.Timeout, c.MaxDelay), 2*c.Dur+time.Millisecond)
 	if c.FirstDur > 0 && attempts <= 1 {
-		bound += c.FirstDur // the only attempt was the slow one: it is allowed to finish
+		bound = satAdd(bound, c.FirstDur) // the only attempt was the slow one: it is allowed to finish
 	}
 	if elapsed > bound {
 		return "gives-up-too-late", fmt.Sprintf("%s: returned the error after %v (bound %v)", c, elapsed, bound)
 	}
 	// (1') must not give up while the timeout still allows the successful attempt
 	if c.SuccessAt != 0 {
-		latestStart := time.Duration(c.SuccessAt-1)*(c.Dur+c.MaxDelay) + maxDur(c.FirstDur-c.Dur, 0)
-		if latestStart+c.Dur < c.Timeout {
+		latestStart := satAdd(satMul(c.SuccessAt-1, satAdd(c.Dur, c.MaxDelay)), maxDur(c.FirstDur-c.Dur, 0))
+		if satAdd(latestStart, c.Dur) < c.Timeout {
 			return "gives-up-too-early", fmt.Sprintf("%s: attempt %d would have started by %v at the latest, well inside the timeout, but an error was returned after %d attempts at %v", c, c.SuccessAt, latestStart, attempts, elapsed)
 		}
 	}
@@ -242,7 +271,7 @@ func runCase(c c20Case, s *gen.Stream) (string, string) {
 	}
 	t0 := time.Now()
 	h, b, err, crash := safeGet(r, "https://example.test/x")
-	if crash != "" {
+	if crash != "" && !sg.overrun {
 		return "panic", fmt.Sprintf("%s: Get crashed: %s", c, crash)
 	}
 	elapsed := time.Since(t0)
@@ -382,6 +411,46 @@ func TestC20(t *testing.T) {
 		}
 		gen.Exhaustive("grid of 6 timeouts x 6 max delays x 4 attempt durations x every k from 'never' to beyond what the timeout allows (capped at 60)", true)
 	})
+	// (a') settings as large as the type allows: "retry for ever" is written as the largest duration (or a century or
+	// two); a success after a few failures is still returned, the waits are still waits
+	gen.Direct(t, "largest-settings", func(t *testing.T) {
+		year := 365 * 24 * time.Hour
+		timeouts := []time.Duration{math.MaxInt64, math.MaxInt64 - time.Second, math.MaxInt64 / 2, math.MaxInt64/2 + 1, 200 * year, 150 * year, 100 * year}
+		maxes := []time.Duration{time.Nanosecond, time.Millisecond, time.Second, 4 * time.Second, 30 * time.Second, 10 * time.Minute, 100 * year, 150 * year, math.MaxInt64}
+		idx := 0
+		for _, to := range timeouts {
+			for _, mx := range maxes {
+				for _, d := range []time.Duration{0, time.Millisecond, 3 * time.Second} {
+					for _, k := range []int{1, 2, 3, 7, 20} {
+						idx++
+						if !gen.ShardOwns(idx) {
+							continue
+						}
+						c := c20Case{Timeout: to, MaxDelay: mx, Dur: d, SuccessAt: k, HeaderKind: idx % 3, BodyLen: []int{-1, 0, 17, 300}[idx%4], ErrKind: (idx / 3) % (2 * nErrKinds)}
+						if idx%5 == 0 {
+							c.Earlier = time.Hour
+						}
+						var key, detail string
+						synctest.Test(t, func(t *testing.T) {
+							key, detail = runCase(c, gen.NewStream(uint64(idx), "c20big"))
+						})
+						gen.Eval()
+						if key != "" {
+							fail(t, key, detail, c)
+							return
+						}
+						if k != 1 {
+							gen.NonTrivial(c.String())
+						}
+						gen.Class("largest-settings")
+						if idx%41 == 0 {
+							gen.Sample("largest-settings", c.String())
+						}
+					}
+				}
+			}
+		}
+	})
 	// (b) random settings under the virtual clock
 	gen.Prop(t, "random", gen.N(3000, 400000), func(t *rapid.T) {
 		c := c20Case{
@@ -500,6 +569,25 @@ func runConcurrentWatched(t *testing.T, cs []c20Case, s *gen.Stream) (key, detai
 		}
 	}
 	return "inconclusive", "concurrent callers did not finish within 45 s of real time and no caller is waiting for a lock"
+}
+
+// satAdd and satMul are additions / multiplications of non-negative durations that stop at the largest duration (the
+// settings are caller-chosen and may be as large as the type allows).
+func satAdd(a, b time.Duration) time.Duration {
+	if a > math.MaxInt64-b {
+		return math.MaxInt64
+	}
+	return a + b
+}
+
+func satMul(n int, d time.Duration) time.Duration {
+	if n <= 0 || d <= 0 {
+		return 0
+	}
+	if d > math.MaxInt64/time.Duration(n) {
+		return math.MaxInt64
+	}
+	return time.Duration(n) * d
 }
 
 func minDur(a, b time.Duration) time.Duration {
